@@ -38,6 +38,7 @@ struct shared_fileset {
 	size_t 				n_loaded, n_unloaded, n_fs, n_iters;
 	bool				reload_needed;
 	struct timespec			fs_last;
+	uint64_t			generation;	/* bumped whenever readers are loaded or unloaded */
 	struct my_fileset		*my_fs;
 };
 
@@ -46,6 +47,7 @@ struct mtbl_fileset {
 	uint32_t			reload_interval;
 	struct shared_fileset		*shared_fs;
 	struct timespec			fs_last;
+	uint64_t			generation;	/* shared_fs->generation our merger was built from */
 	struct mtbl_merger		*merger;
 	struct mtbl_merger_options	*mopt;
 	struct mtbl_source		*source;
@@ -332,10 +334,14 @@ mtbl_fileset_reload(struct mtbl_fileset *f)
 	assert(f != NULL);
 	struct timespec now;
 
-	/* if our merger is from an out of date fileset, reinitialize it. */
-	if ((f->fs_last.tv_sec != f->shared_fs->fs_last.tv_sec) ||
-	    (f->fs_last.tv_nsec != f->shared_fs->fs_last.tv_nsec)) {
+	/*
+	 * If our merger is from an out of date fileset, reinitialize it.
+	 * Timestamps cannot tell: two reloads through other handles may see
+	 * the same clock reading.
+	 */
+	if (f->generation != f->shared_fs->generation) {
 		fs_reinit_merger(f);
+		f->generation = f->shared_fs->generation;
 		f->fs_last = f->shared_fs->fs_last;
 	}
 
@@ -359,8 +365,11 @@ mtbl_fileset_reload(struct mtbl_fileset *f)
 		f->shared_fs->n_unloaded = 0;
 		assert(f->shared_fs->my_fs != NULL);
 		my_fileset_reload(f->shared_fs->my_fs);
-		if (f->shared_fs->n_loaded > 0 || f->shared_fs->n_unloaded > 0)
+		if (f->shared_fs->n_loaded > 0 || f->shared_fs->n_unloaded > 0) {
+			f->shared_fs->generation++;
 			fs_reinit_merger(f);
+			f->generation = f->shared_fs->generation;
+		}
 		f->shared_fs->fs_last = now;
 		f->fs_last = now;
 		f->shared_fs->reload_needed = false;
@@ -394,8 +403,11 @@ mtbl_fileset_reload_now(struct mtbl_fileset *f)
 	f->shared_fs->n_unloaded = 0;
 	assert(f->shared_fs->my_fs != NULL);
 	my_fileset_reload(f->shared_fs->my_fs);
-	if (f->shared_fs->n_loaded > 0 || f->shared_fs->n_unloaded > 0)
+	if (f->shared_fs->n_loaded > 0 || f->shared_fs->n_unloaded > 0) {
+		f->shared_fs->generation++;
 		fs_reinit_merger(f);
+		f->generation = f->shared_fs->generation;
+	}
 	f->shared_fs->fs_last = now;
 	f->fs_last = now;
 	f->shared_fs->reload_needed = false;
